@@ -14,7 +14,9 @@ class Cli(Harness):
     on_panic = 'violation'
     def build(self):
         self.fam = Family()
-        self.docs = family_root_level(self.fam, docs=1, slots=1, attrs=1, text=True, pool=2, leaf_form=False, root_form=False, names=['b', 'type'], anames=['a', 'b'])
+        # two children and two attributes so that --sort is observable (with one of each the sorted and the unsorted rendering coincide)
+        slots, attrs = getattr(self, 'slots', 2), getattr(self, 'attrs', 2)
+        self.docs = family_root_level(self.fam, docs=1, slots=slots, attrs=attrs, text=True, pool=2, leaf_form=False, root_form=False, names=['b', 'type'], anames=['b', 'a'])
         self.parser_serde = z3.Bool('arg_parser_is_serde_xml_rs'); self.sort_name = z3.Bool('arg_sort_is_name')
         self.derive = z3.String('arg_derive'); self.inpath = z3.String('arg_input'); self.outpath = z3.String('arg_output'); self.has_out = z3.Bool('arg_has_output')
         self.read_ok = z3.Bool('env_read_ok'); self.input_kind = z3.Int('env_input_kind')     # 0 well-formed document, 1 reader error, 2 no element
